@@ -196,6 +196,17 @@ class Env:
                 EXEC_LOG.append((_peer_port(), tok, "_private", False))
                 return tok
 
+        def remote_call():
+            """is this invocation dispatched by Daemon.handleRequest (directly, or in one of its oneway threads)?"""
+            if type(threading.current_thread()).__name__ == "_OnewayCallThread":
+                return True
+            f = sys._getframe(2)
+            while f is not None:
+                if f.f_code.co_name == "handleRequest":
+                    return True
+                f = f.f_back
+            return False
+
         def dlog(name):
             from Pyro5.api import current_context
             EXEC_LOG.append((_peer_port(), current_context.seq, name, True))
@@ -216,7 +227,7 @@ class Env:
                 return super().info()
 
             def get_metadata(self, objectId):
-                if sys._getframe(1).f_code.co_name != "_handshake":     # the handshake's own lookup is not a call
+                if remote_call():            # the daemon's own lookups (the handshake's) are not calls on behalf of a peer
                     dlog("get_metadata")
                 return super().get_metadata(objectId)
 
